@@ -44,6 +44,10 @@ struct yaep_verif_info {
   /* H3: error recovery */
   long rec_limit;              /* in: >0 = give up (YAEP_NO_MEMORY) after that many alternatives */
   int rec_explosion;
+  /* H5: make_parse */
+  long alt_limit;              /* in: >0 = give up (YAEP_NO_MEMORY) after that many alternative nodes */
+  int alt_explosion;
+  /* H3 continued */
   int in_recovery;
   int n_rec;
   struct yaep_verif_rec rec[YAEP_VERIF_MAX_REC];
